@@ -28,6 +28,17 @@ theorem gen_functions_known : Gen.lockRegionNames =
     ["ipfixInsert", "ipfixRetrieve", "ipfixAllSetIds", "ipfixDump",
      "nf9Insert", "nf9Retrieve", "nf9Dump", "ipfixIRPCGet", "ipfixRPC"] := by decide
 
+/-- `valid()` (added by the F9 repair) runs inside `GetCache`, before the cache is returned to — and so
+before it can be shared with — any other goroutine; it only compares shard pointers and map headers
+with nil.  Its exact statements are pinned here; it is not a concurrent cache operation. -/
+theorem gen_load_time_checks : Gen.loadTimeChecks =
+    [("ipfixValid", ["if len(m) != shardNo { return false }",
+                     "for _, shard := range m { if shard == nil || shard.Templates == nil { return false } }",
+                     "return true"]),
+     ("nf9Valid", ["if len(m) != shardNo { return false }",
+                   "for _, shard := range m { if shard == nil || shard.Templates == nil { return false } }",
+                   "return true"])] := by decide +kernel
+
 theorem gen_shardNo : Gen.ipfixShardNo = 32 ∧ Gen.nf9ShardNo = 32 := by decide
 
 /-- `ipfix.MemCache.insert`: write under the shard's write lock, released on return -/
